@@ -238,6 +238,14 @@ Proof.
   intros rest out. apply (Hn (length rest)). lia.
 Qed.
 
+Lemma sel_compact_ok D : forall rest out ia, buf_ok D out -> buf_ok D rest -> buf_ok D (sel_compact out ia rest).
+Proof.
+  induction rest as [|t rest IH]; intros out ia Ho Hr; cbn [sel_compact].
+  - unfold buf_ok in *. rewrite Forall_forall in *. intros x Hx. apply Ho. apply in_rev. exact Hx.
+  - inversion Hr as [|? ? Ht Hr']; subst.
+    destruct (is_wstok t && _); [apply IH; assumption|apply IH; [constructor; assumption|exact Hr']].
+Qed.
+
 Lemma declaration_loop_c D : forall fuel F p g p', declaration_loop fuel F p = POk (g, p') -> cinv D p -> cinv D p'.
 Proof.
   induction fuel as [|fuel IH]; intros F p g p' H Hc; cbn [declaration_loop] in H; [discriminate|].
@@ -256,7 +264,8 @@ Proof.
     apply (cinv_fields D (set_tok (set_buf p1 (compact [] (drop_ws vals))) (ptt p1) (to_lower (pdata p1)))); try reflexivity.
     apply cinv_set_tok; [apply cinv_set_buf; [exact Hc1|]|apply RT_lower; apply Hc1].
     apply compact_ok; [constructor|apply drop_ws_ok; exact Hvals].
-  - pif H; [ret_inv H; apply (cinv_fields D (set_tok p1 TWhitespace [])); try reflexivity; apply cinv_set_tok; [exact Hc1|apply RT_empty]|].
+  - pif H; [ret_inv H; apply (cinv_fields D (set_tok (set_buf p1 (sel_compact [] false (pbuf p1))) TWhitespace [])); try reflexivity;
+            apply cinv_set_tok; [apply cinv_set_buf; [exact Hc1|apply sel_compact_ok; [constructor|apply Hc1]]|apply RT_empty]|].
     pif H; [eapply Herr; exact H|].
     pinv_bind H. eapply IH; [exact H|]. cinv_solve.
 Qed.
